@@ -824,6 +824,11 @@ class Lower:
         if c[0] == "binop" and c[1] == "||" and not self.pure(c):
             return self.cond(c[2], env, kt, lambda e1: self.cond(c[3], e1, kt, kf))
         def kc(env1, v):
+            if v.ty != "bool":
+                txt = show(c); self.unknown.append("condition " + txt)
+                b = self.fresh("b"); t = txt.replace('"', "'")
+                v = V("bool", b)
+                return f'.askB (.unknown "{t}") fun {b} => ' + kc(env1, v)
             if env1["guard"] == "@tmp" and env["guard"] != "@tmp":
                 env2 = dict(env1); env2["guard"] = None
                 b = self.fresh("b")
@@ -976,6 +981,17 @@ def pretty(term, width=110):
     lines.append(line.rstrip())
     return "\n".join(lines)
 
+def lean_errors(path):
+    """line numbers of the errors Lean reports for the generated file"""
+    import subprocess
+    proj = os.path.dirname(os.path.dirname(os.path.abspath(path)))
+    try:
+        r = subprocess.run(["lake", "env", "lean", os.path.abspath(path)], cwd=proj, capture_output=True, text=True, timeout=600)
+    except Exception as ex:                                   # no Lean available: nothing to validate against
+        return []
+    return [int(m.group(1)) for m in re.finditer(r":(\d+):\d+: error", r.stdout + r.stderr)]
+
+
 def main():
     src_dir, out_path = sys.argv[1], sys.argv[2]
     fns = []
@@ -994,35 +1010,62 @@ def main():
            "  One definition per function that touches the channel lock; see Kanal/Act.lean for the target language",
            "  and Kanal/TieCode.lean for the theorems that relate each definition to the hand-written model.", "-/",
            "import Kanal.Act", "", "namespace Kanal", "namespace Gen", "set_option linter.unusedVariables false", ""]
-    names, problems = [], []
-    # ChannelInternal methods first (callees before callers: terminate_signals etc. call nothing)
-    for f in internal + api:
-        L = Lower(f, isigs)
-        try:
-            body = L.run()
-        except (Unsupported, SyntaxError, StopIteration, IndexError, KeyError) as ex:
-            problems.append(f"{lean_name(f)}: {type(ex).__name__}: {ex}")
-            body = '.eff (.unknown "untranslatable") (.diverge)' if f["ctx"] != "ChannelInternal" else '.diverge'
-        nm = lean_name(f)
-        names.append(nm)
-        out.append(f"/-- `{f['ctx']}::{f['name']}` ({f['file']}) -/")
-        if f["ctx"] == "ChannelInternal":
-            ps = "".join(f" (v_{p} : SigId)" for p in L.params)
-            out.append(f"def {nm} (c : Chan){ps} (k : Chan → {RET_LEAN[isigs[f['name']]['ret']]} → Act) : Act :=")
-        else:
-            out.append(f"def {nm} (x : Ctx) : Act :=")
-        out.append(pretty(body)); out.append("")
-        for u in L.unknown: problems.append(f"{nm}: unknown expression `{u}`")
-    out.append("/-- the translated functions, in source order -/")
-    out.append("def names : List String := [" + ", ".join(f'"{n}"' for n in names) + "]")
-    out.append("")
-    out.append("/-- what the translator could not handle (must be empty: `TieCode.translation_complete`) -/")
-    out.append("def problems : List String := [" + ", ".join('"' + p.replace('"', "'") + '"' for p in problems) + "]")
-    out += ["", "end Gen", "end Kanal", ""]
-    text = "\n".join(out)
+    header = out
+    STUB_API, STUB_INT = '.eff (.unknown "untranslatable") (.diverge)', '.diverge'
+
+    def render(stubbed):
+        """-> (text, names, problems, line ranges of the definitions)"""
+        out, names, problems, ranges = list(header), [], [], {}
+        for f in internal + api:              # ChannelInternal methods first (callees before callers)
+            L = Lower(f, isigs)
+            nm = lean_name(f)
+            try:
+                body = L.run()
+            except (Unsupported, SyntaxError, StopIteration, IndexError, KeyError, TypeError, AttributeError) as ex:
+                problems.append(f"{nm}: {type(ex).__name__}: {ex}")
+                body = None
+            if nm in stubbed:
+                problems.append(f"{nm}: the translation does not type-check in Lean ({stubbed[nm]})")
+                body = None
+            if body is None:
+                L.unknown = []
+                body = STUB_INT if f["ctx"] == "ChannelInternal" else STUB_API
+            names.append(nm)
+            start = len(out) + 1
+            out.append(f"/-- `{f['ctx']}::{f['name']}` ({f['file']}) -/")
+            if f["ctx"] == "ChannelInternal":
+                params = getattr(L, "params", None)
+                if params is None:
+                    params = re.findall(r"(\w+)\s*:\s*(?:&\s*)?(?:Signal|SignalTerminator)", " ".join(f["params"]))
+                ps = "".join(f" (v_{p} : SigId)" for p in params)
+                out.append(f"def {nm} (c : Chan){ps} (k : Chan → {RET_LEAN[isigs[f['name']]['ret']]} → Act) : Act :=")
+            else:
+                out.append(f"def {nm} (x : Ctx) : Act :=")
+            out += pretty(body).split("\n"); out.append("")
+            ranges[nm] = (start, len(out))
+            for u in L.unknown: problems.append(f"{nm}: unknown expression `{u}`")
+        out.append("/-- the translated functions, in source order -/")
+        out.append("def names : List String := [" + ", ".join(f'"{n}"' for n in names) + "]")
+        out.append("")
+        out.append("/-- what the translator could not handle (must be empty: `TieCode.translation_complete`) -/")
+        out.append("def problems : List String := [" + ", ".join('"' + p.replace('"', "'").replace("\\", "/") + '"' for p in problems) + "]")
+        out += ["", "end Gen", "end Kanal", ""]
+        return "\n".join(out), names, problems, ranges
+
+    text, names, problems, ranges = render({})
     old = open(out_path).read() if os.path.exists(out_path) else None
     if old != text:
         open(out_path, "w").write(text)
+        # a translation Lean rejects (ill-typed: the source does something the target language has no shape for)
+        # is replaced by a stub, function by function, so that the other tie theorems keep their meaning
+        stubbed = {}
+        for _ in range(4):
+            errs = lean_errors(out_path)
+            new = {nm: f"line {l}" for l in errs for nm, (a, b) in ranges.items() if a <= l <= b and nm not in stubbed}
+            if not new: break
+            stubbed.update(new)
+            text, names, problems, ranges = render(stubbed)
+            open(out_path, "w").write(text)
     print(f"rs2lean: {len(names)} functions, {len(problems)} problems -> {out_path}")
     for p in problems: print("  problem:", p)
 
